@@ -5,9 +5,15 @@ CLAUSES = ["C06_DiffConst", "C06_CentralConst", "C06_UpwindConst", "C06_UpwindAl
            "C06_SourceDiag", "C06_SourceVec", "C06_TvdConst"]
 
 
+opscheck.NEEDS["C06_Steady"] = []
+
+
 def run(tier, seed):
+    import maxdrive
+    steady = dict(clauses_for=lambda cfg: ["C06_Steady"], n_quick=4, n_thorough=40, gen_kw=[{}],
+                  generator=maxdrive.gen, observe=maxdrive.observe)
     return opscheck.run_property(
         "C06", tier, seed, clauses_for=lambda cfg: CLAUSES, n_quick=6, n_thorough=60,
-        gen_kw=[{}, {"nmax": 2}], extra_conform=[],
+        gen_kw=[{}, {"nmax": 2}], extra_conform=[], parts=[steady],
         rule="9 grid classes x seeded spacings / D fields / velocity sign patterns; row sums of every advection-"
              "diffusion matrix against the code's own divergence of u; source terms entrywise")
